@@ -2,6 +2,8 @@
    Property-level theorems only; each is closed by a lemma from Sparse/*Proofs.v.
    `den_X A i j` is the sum of all stored values of A at (i,j): the operator A represents. *)
 From Raptor Require Import Base.Sums Sparse.Defs Sparse.ConvertProofs Sparse.SortProofs Sparse.Block Sparse.BlockProofs Sparse.BlockConvProofs Sparse.BlockDedupProofs.
+From Coq Require Import Sorted.
+From Raptor Require Import Dist.Comm Dist.ParMat Dist.ParConv Dist.ParConvProofs.
 
 Section C07.
 Variable F : Type.
@@ -214,6 +216,66 @@ Proof.
   - apply (bden_csc_remove_duplicates F zero one add mul sub opp Fth bsmall br bc n I J r c Hr Hc C HC).
 Qed.
 
+(* ---------------- distributed counterparts (core/par_matrix.cpp, util/linalg/par_add.cpp) ----------------
+   `gden_row rs li j` is entry (first_local_row + li, j) of the global operator as held by one rank
+   (on-process block + off-process block through the column map). *)
+Notation gdenR := (gden_row F zero add).
+Notation dfltR := (mkRS 0 0 0 0 (mkCsr 0 0 []) (mkCsr 0 0 []) []).
+
+(* conversions between ParCSR / ParCOO / ParCSC (copies included): every rank's rows of the global operator unchanged *)
+Theorem C07_par_conversions (r : rank_state F) (c : rank_coo F) (k : rank_csc F) li j :
+  (rs_wf2 F r ->
+     gden_coo F zero add (par_csr_to_coo F r) li j = gdenR r li j /\
+     gden_csc F zero add (par_csr_to_csc F r) li j = gdenR r li j /\
+     gdenR (par_csr_to_csr F r) li j = gdenR r li j) /\
+  (rc_wf F c ->
+     gdenR (par_coo_to_csr F c) li j = gden_coo F zero add c li j /\
+     gden_csc F zero add (par_coo_to_csc F c) li j = gden_coo F zero add c li j /\
+     gden_coo F zero add (par_coo_to_coo F c) li j = gden_coo F zero add c li j) /\
+  (rk_wf F k ->
+     gdenR (par_csc_to_csr F k) li j = gden_csc F zero add k li j /\
+     gden_coo F zero add (par_csc_to_coo F k) li j = gden_csc F zero add k li j /\
+     gden_csc F zero add (par_csc_to_csc F k) li j = gden_csc F zero add k li j).
+Proof.
+  split; [|split].
+  - apply (par_conversions_from_csr F zero add).
+  - apply (par_conversions_from_coo F zero add).
+  - apply (par_conversions_from_csc F zero add).
+Qed.
+
+(* ParCSRMatrix::transpose: for every list of rank states (any partition into contiguous blocks) and every package
+   that passes the reverse check of C03, entry (local row i of rank q, global column = row li of rank p) of the result
+   is entry (row li of rank p, column fc_q + i) of the source; remove_duplicates in finalize discards |v| < zero_tol *)
+Theorem C07_par_transpose (w : world) (st : list (rank_state F)) (q p i li : nat) :
+  let colmaps := map (fun rs => rs_colmap rs) st in
+  let ids := map (fun rs => seq (rs_fc rs) (rs_nc rs)) st in
+  let Q := nth q st dfltR in let P := nth p st dfltR in
+  rev_ok w ids colmaps = true -> length w = length st -> q < length st -> p < length st ->
+  (forall p', p' < length st -> st_ok F (nth p' st dfltR)) ->
+  i < rs_nc Q -> li < rs_nr P ->
+  (forall p', p' < length st -> p' <> p ->
+     ~ (rs_fr (nth p' st dfltR) <= rs_fr P + li < rs_fr (nth p' st dfltR) + rs_nr (nth p' st dfltR))) ->
+  (forall q', q' < length st -> q' <> q ->
+     ~ (rs_fc (nth q' st dfltR) <= rs_fc Q + i < rs_fc (nth q' st dfltR) + rs_nc (nth q' st dfltR))) ->
+  (forall c, In c (rs_colmap Q) -> ~ (rs_fc Q <= c < rs_fc Q + rs_nc Q)) ->
+  gdenR (par_transpose F add small w st q) i (rs_fr P + li) = drop F zero small (gdenR P li (rs_fc Q + i)) /\
+  rs_fr (par_transpose F add small w st q) = rs_fc Q /\ rs_nr (par_transpose F add small w st q) = rs_nc Q /\
+  rs_fc (par_transpose F add small w st q) = rs_fr Q /\ rs_nc (par_transpose F add small w st q) = rs_nr Q.
+Proof.
+  intros colmaps ids Q P H1 H2 H3 H4 H5 H6 H7 H8 H9 H10.
+  split; [|repeat split].
+  exact (par_transpose_global F zero one add mul sub opp Fth small w st q p i li H1 H2 H3 H4 H5 H6 H7 H8 H9 H10).
+Qed.
+
+(* ParCSRMatrix::add / subtract on operands with DIFFERENT off-process column maps *)
+Theorem C07_par_add_subtract (neg : bool) (A B : rank_state F) li j :
+  st_ok F A -> st_ok F B -> rs_nr B = rs_nr A -> rs_nc B = rs_nc A -> rs_fc B = rs_fc A ->
+  StronglySorted lt (rs_colmap A) -> StronglySorted lt (rs_colmap B) ->
+  (forall c, In c (rs_colmap A) \/ In c (rs_colmap B) -> ~ (rs_fc A <= c < rs_fc A + rs_nc A)) ->
+  gdenR (par_add_local F add opp small neg A B) li j
+  = drop F zero small (add (gdenR A li j) (if neg then opp (gdenR B li j) else gdenR B li j)).
+Proof. exact (par_add_global F zero one add mul sub opp Fth small neg A B li j). Qed.
+
 End C07.
 
 Print Assumptions C07_coo_to_csr.
@@ -235,3 +297,6 @@ Print Assumptions C07_block_conversions.
 Print Assumptions C07_block_sort_move_diag.
 Print Assumptions C07_block_transposes.
 Print Assumptions C07_block_remove_duplicates.
+Print Assumptions C07_par_conversions.
+Print Assumptions C07_par_transpose.
+Print Assumptions C07_par_add_subtract.
